@@ -128,12 +128,14 @@ impl ReplicationMessage {
     pub fn ack(&self, server_name: &String) -> bool {
         let not_full_ack: bool = {
             //let relations =
-            match self
-                .replications
-                .lock()
-                .unwrap()
-                .insert(server_name.to_string(), true)
-            {
+            // (only a node the message was sent to has an entry to flip: an acknowledgement of any
+            // other node must not add one)
+            let mut replications = self.replications.lock().unwrap();
+            let previous = match replications.get_mut(server_name) {
+                Some(is_ack) => Some(std::mem::replace(is_ack, true)),
+                None => None,
+            };
+            match previous {
                 None => {
                     log::warn!(
                         "trying to ack {} but not pedding from the server {}",
